@@ -133,15 +133,14 @@ def run_impl_all(cases, procs=None):
 
 def run_model_all(cases, procs=None):
     procs = procs or min(16, os.cpu_count() or 4)
-    if len(cases) < 200:
+    if len(cases) < 300:
         return common.run_model(cases)
-    chunks = [cases[i::procs] for i in range(procs)]
+    chunks = [cases[i:i + 250] for i in range(0, len(cases), 250)]
     with multiprocessing.Pool(procs) as pool:
         res = pool.map(common.run_model, chunks)
-    out = [None] * len(cases)
-    for k, ch in enumerate(res):
-        for j, r in enumerate(ch):
-            out[k + j * procs] = r
+    out = []
+    for ch in res:
+        out.extend(ch)
     return out
 
 
